@@ -246,6 +246,7 @@ theorem step_inv (c : Case01) (hm : c.sess.max = 1) (w : World) (g : Gh) (hJ : J
   | wd s p rpid => exact ⟨by simp [World.step, hl], E, by simpa [World.step, ghostStep] using S, by simpa [World.step, ghostStep] using hcur⟩
   | down s => exact ⟨by simp [World.step, hl], E, by simpa [World.step, ghostStep] using S, by simpa [World.step, ghostStep] using hcur⟩
   | llgr s => simp [ghostStep] at hok
+  | nh a up => exact ⟨by simp [World.step, hl], E, by simpa [World.step, ghostStep] using S, by simpa [World.step, ghostStep] using hcur⟩
   | reset k =>
     refine ⟨by simp [World.step, hl], E, ?_, ?_⟩
     · simp only [World.step, ghostStep]
@@ -283,7 +284,7 @@ def noLlgr (ops : List Op) : Bool := ops.all (fun op => match op with | .llgr _ 
 /-- the RIB the session is established on -/
 def rib0Of (c : Case01) : Rib × Nat :=
   c.pre.foldl (fun (acc : Rib × Nat) op =>
-      let (r, _, a) := ribOp c acc.1 acc.2 [] op
+      let (r, _, a) := ribOp c acc.1 acc.2 [] [] op
       (r, a)) (initRib c.shards, 1)
 
 def world0 (c : Case01) : World :=
